@@ -18,7 +18,8 @@ TYPES = {"A": 1, "AAAA": 28, "TXT": 16, "CNAME": 5, "NS": 2, "PTR": 12, "MX": 15
 EXTRA_TYPES = {"HINFO": 13, "MINFO": 14, "RP": 17, "AFSDB": 18, "NAPTR": 35, "KX": 36, "DNAME": 39, "OPT": 41,
                "RRSIG": 46, "NSEC": 47, "DNSKEY": 48, "CAA": 257, "NULL": 10, "SVCB": 64}
 TYPE_NAME = {v: k for k, v in {**TYPES, **EXTRA_TYPES}.items()}
-PURE_NAME = ("CNAME", "NS", "PTR", "DNAME")
+PURE_NAME = ("CNAME", "NS", "PTR", "DNAME", "MINFO", "RP")  # RDATA is nothing but names
+MODEL_EXTRA = ("HINFO", "MINFO", "RP", "AFSDB", "NAPTR", "KX", "DNAME", "OPT")  # also in the model's alphabet
 SHAPES = ("plain", "comp", "comp_idn", "hibytes", "ptrlike")
 IDN_LABELS = (b"xn--bcher-kva", b"xn--mnchen-3ya", b"xn--fsq", b"xn--80ak6aa92e", b"xn--nxasmq6b")
 ASCII_LABELS = (b"www", b"example", b"com", b"mail", b"ns1", b"a", b"cdn-7", b"x" * 63, b"Ex", b"_sip", b"_tcp", b"org")
@@ -26,14 +27,14 @@ ASCII_LABELS = (b"www", b"example", b"com", b"mail", b"ns1", b"a", b"cdn-7", b"x
 
 def valid_row(t: str, shape: str) -> bool:
     if shape in ("comp", "comp_idn"):
-        return dnsref.has_names({**TYPES, **EXTRA_TYPES}[t])
+        return dnsref.has_names({**TYPES, **EXTRA_TYPES}[t]) and t not in ("KX", "DNAME")  # senders must not compress
     if shape in ("hibytes", "ptrlike"):
         return t not in PURE_NAME
     return True
 
 
 def all_rows():
-    return [(t, s) for t in TYPES for s in SHAPES if valid_row(t, s)]
+    return [(t, s) for t in list(TYPES) + list(MODEL_EXTRA) for s in SHAPES if valid_row(t, s)]
 
 
 # ---- concretiser: (type class, shape) -> RDATA written into a Builder -------------------------------------------
@@ -393,7 +394,7 @@ class Check(core.PropertyCheck):
                     ops.append({"dir": "reply", "id": mid, "hex": r.hex(), "labels": [list(x) for x in rl]})
             yield core.Scenario({"tr": tr, "ops": ops}, source="random")
         # the model's rows again inside large messages (everything interesting sits at offsets > 255 / > 937)
-        for t, shape in all_rows() + [(t, s) for t in EXTRA_TYPES for s in SHAPES if valid_row(t, s)]:
+        for t, shape in all_rows() + [(t, s) for t in EXTRA_TYPES if t not in MODEL_EXTRA for s in SHAPES if valid_row(t, s)]:
             for pad in ((20, 70) if ctx.quick else (20, 70, 200, 700)):
                 tr = rng.choice(("udp", "tcp"))
                 q, _ = build_message("query", 7, [], rng)
